@@ -225,7 +225,8 @@ def find_or_extend(item_list: list[T], key_func: Callable[[T], Hashable] = id) -
             pass
         else:
             for i in indices:
-                if all(
+                # The whole sublist has to be present, zip() would stop at the end of the list.
+                if i + len(items) <= len(item_list) and all(
                     key_func(a) == key_func(b)
                     for a, b in
                     zip(items, itertools.islice(item_list, i, i + len(items)))
